@@ -117,8 +117,61 @@ def multi_scale(rng, direction):
     return f, exact, y0, 0.0, direction * span, om, dict(a=a, om=om)
 
 
+def tolerance_setter_block(ctx, rng):
+    """tolerances given through the `rtol` / `atol` setters (after the method was selected; before the first call or between two calls)
+    are the tolerances the run honours: same error bound as for constructor tolerances, and - set before the first call - the very
+    same run as a system constructed with them"""
+    meths = {"RK45CKSolver": I.RK45CKSolver, "DOPRI45": I.DOPRI45, "RK8713MSolver": I.RK8713MSolver,
+             "Richardson(RK4Solver,3)": de.integrators.generate_richardson_integrator(I.RK4Solver, 3),
+             "Richardson(MidpointSolver,4)": de.integrators.generate_richardson_integrator(I.MidpointSolver, 4)}
+    for name, cls in meths.items():
+        for tol in ([1e-7] if ctx.quick() else [1e-5, 1e-7, 1e-9]):
+            (pname, f, exact, y0, lam, L) = problems(rng)[0]
+            direction = rng.choice([1, -1])
+            span = rng.uniform(0.8, 1.5)
+            t0, tf = 0.0, direction * span
+            dt0 = rng.choice([1e-2, 0.3])
+            bound = 60.0 * max(5.0, span * (lam + L) * 5)
+            inp = dict(kind="tolerance-setters", method=name, tol=tol, t0=t0, tf=tf, dt0=dt0)
+            try:
+                # (1) set before the first call
+                ode = de.OdeSystem(f, y0=y0.copy(), t=(t0, tf), dt=dt0, rtol=1e-3, atol=1e-3)
+                ode.set_method(cls)
+                ode.rtol = tol
+                ode.atol = tol
+                ode.integrate()
+                fresh = de.OdeSystem(f, y0=y0.copy(), t=(t0, tf), dt=dt0, rtol=tol, atol=tol)
+                fresh.set_method(cls)
+                fresh.integrate()
+                ex = np.array([exact(float(t)) for t in ode.t])
+                err = float(np.max(np.abs(ode.y - ex) / (tol + tol * np.abs(ex))))
+                ctx.oracle("global-error-proportional-to-tolerance", err <= bound, dict(inp, when="before-first-call", scaled_error=err, bound=bound, steps=len(ode.t) - 1),
+                           what="tolerances set through the setters before the first call: global error / (atol + rtol|y|) = %.1f exceeds %.0f" % (err, bound))
+                ctx.oracle("setter-tolerances-equal-constructor-tolerances", len(ode.t) == len(fresh.t) and np.array_equal(ode.t, fresh.t) and np.array_equal(ode.y, fresh.y),
+                           dict(inp, steps=len(ode.t) - 1, steps_constructor=len(fresh.t) - 1),
+                           what="a run with tolerances set through the setters (%d steps) differs from the run of a system constructed with them (%d steps)" % (len(ode.t) - 1, len(fresh.t) - 1))
+                # (2) tightened between two calls: the second leg is judged from its own start
+                ode = de.OdeSystem(f, y0=y0.copy(), t=(t0, tf), dt=dt0, rtol=1e-3, atol=1e-3)
+                ode.set_method(cls)
+                tm = t0 + 0.4 * (tf - t0)
+                ode.integrate(tm)
+                n1 = len(ode.t)
+                ym, tmid = np.array(ode.y[-1]), float(ode.t[-1])
+                ode.rtol = tol
+                ode.atol = tol
+                ode.integrate()
+                ex2 = np.array([exact(float(t) - tmid, ym) for t in ode.t[n1 - 1:]])
+                err2 = float(np.max(np.abs(ode.y[n1 - 1:] - ex2) / (tol + tol * np.abs(ex2))))
+                ctx.oracle("global-error-proportional-to-tolerance", err2 <= bound, dict(inp, when="between-calls", scaled_error=err2, bound=bound, steps=len(ode.t) - n1),
+                           what="tolerances tightened through the setters between two calls: error of the second leg / (atol + rtol|y|) = %.1f exceeds %.0f" % (err2, bound))
+                ctx.count("tolerance-setters:" + name)
+            except de.exception_types.FailedIntegration as e:
+                ctx.oracle("adaptive-run-succeeds", False, dict(inp, cause=repr(e.__cause__)[:120]), what="run with setter tolerances failed: %r" % (e.__cause__,))
+
+
 def run(ctx):
     rng = ctx.rng
+    tolerance_setter_block(ctx, rng)
     lines, cases = [], []
     names = PAIRS_EXPLICIT[:4] + (PAIRS_IMPLICIT[:1] if ctx.quick() else PAIRS_EXPLICIT[4:] + PAIRS_IMPLICIT)
     tols = [1e-3, 1e-5, 1e-7, 1e-9, 1e-11]
@@ -230,7 +283,9 @@ def run(ctx):
                     size = np.max(np.abs(ex), axis=0)
                     err = float(np.max(np.abs(ode.y - ex) / (atol + tol * size)))
                     # the rotation's phase error accumulates linearly in the number of periods; the decay damps errors
-                    bound = 100.0 * max(5.0, abs(tf - t0) * L)
+                    # (an error-per-step controller bounds every LOCAL error by the tolerance: on a neutrally stable rotation the global error
+                    # can reach the number of steps times the tolerance, which matters for low-order wrappers taking thousands of steps)
+                    bound = max(100.0 * max(5.0, abs(tf - t0) * L), 3.0 * (len(ts) - 1))
                     # mechanism of finding P25 (repaired in /repo a91c390; reported under its own key if it returns): the first call starts far too large, its rejected attempts stay in the controller's
                     # memory (smoothed scale, error history entering with a negative exponent) and the first accepted step is tested
                     # against a loosened tolerance; the error is then already present after the first recorded step
